@@ -10,6 +10,7 @@ import (
 
 	sym "github.com/feichai0017/NoKV/internal/verifsym"
 	"github.com/feichai0017/NoKV/kv"
+	"github.com/feichai0017/NoKV/lsm/compact"
 	"github.com/feichai0017/NoKV/lsm/flush"
 	"github.com/feichai0017/NoKV/manifest"
 	"github.com/feichai0017/NoKV/pb"
@@ -62,6 +63,17 @@ func verifOpenGate() {
 	verifFlushGate.Store(true)
 	verifGateCond.Broadcast()
 	verifGateMu.Unlock()
+}
+
+// verifBuilderAdd stands in for tableBuilder.add (reached through AddKey,
+// AddKeyWithLen, AddStaleKey, AddStaleEntryWithLen).
+func verifBuilderAdd(tb *tableBuilder, e *kv.Entry, valueLen uint32, isStale bool) {
+	verifBuilderAddKey(tb, e)
+	tb.keyHashes = append(tb.keyHashes, 0)
+	tb.estimateSz += int64(len(e.Key) + len(e.Value) + 16)
+	if isStale {
+		tb.staleDataSize += len(e.Key) + int(valueLen) + 8
+	}
 }
 
 func verifBuilderAddKey(tb *tableBuilder, e *kv.Entry) {
@@ -170,6 +182,31 @@ type verifTableItem struct{ e *kv.Entry }
 
 func (i verifTableItem) Entry() *kv.Entry { return i.e }
 
+func verifTableDelete(t *table) error { return nil }
+func verifSyncDir(fs vfs.FS, dir string) error { return nil }
+
+// VerifCompact runs one maintenance step of the real compaction code
+// (levelManager.doCompact: L0 -> ingest buffer of the last level | drain that
+// ingest buffer into the level's main tables | merge the ingest buffer in
+// place) with the flush gate open, and reports whether it had anything to do.
+func (v *VerifLSM) VerifCompact(level int, mode compact.IngestMode) bool {
+	last := v.L.option.MaxLevelNum - 1
+	n := v.L.option.MaxLevelNum
+	t := compact.Targets{BaseLevel: last, TargetSz: make([]int64, n), FileSz: make([]int64, n)}
+	for i := range t.TargetSz {
+		t.TargetSz[i], t.FileSz[i] = 10<<20, 2<<20
+	}
+	verifOpenGate()
+	err := v.L.levels.doCompact(0, compact.Priority{Level: level, Score: 5, Adjusted: 5, Target: t, IngestMode: mode})
+	verifFlushGate.Store(false)
+	verifGateOpenGhost = false
+	if err != nil {
+		sym.Assert(err == utils.ErrFillTables, "compaction-step-succeeds-or-has-nothing-to-do")
+		return false
+	}
+	return true
+}
+
 func verifManifestLogEdits(m *manifest.Manager, edits ...manifest.Edit) error { return nil }
 
 func verifWalAppend(m *wal.Manager, payloads ...[]byte) ([]wal.EntryInfo, error) {
@@ -209,7 +246,11 @@ type VerifLSM struct {
 	wal *wal.Manager
 }
 
-// VerifOpenLSM: engine = "skiplist" or "art"; levels = number of levels.
+// verifLevels: number of levels of the engine-side LSM (2 = L0 + one level;
+// 3 when compaction steps are part of the harness).
+var verifLevels = 2
+
+// VerifOpenLSM: engine = "skiplist" or "art".
 func VerifOpenLSM(engine string) *VerifLSM {
 	verifFlushGate.Store(false)
 	verifGateOpenGhost = false
@@ -230,10 +271,16 @@ func VerifOpenLSM(engine string) *VerifLSM {
 	if sym.Symbolic() {
 		utils.VerifSkiplistHeightOne = true
 		verifTables, verifBuilders = nil, nil
-		opt.MaxLevelNum = 2
+		opt.MaxLevelNum = verifLevels
 		l := &LSM{option: opt}
 		l.flushMgr = flush.NewManager()
+		dc := make(chan map[manifest.ValueLogID]int64, 16)
+		opt.DiscardStatsCh = &dc
 		lm := &levelManager{lsm: l, opt: opt}
+		lm.compactState = l.newCompactStatus()
+		if opt.IngestCompactBatchSize <= 0 {
+			opt.IngestCompactBatchSize = 4
+		}
 		for i := 0; i < opt.MaxLevelNum; i++ {
 			lm.levels = append(lm.levels, &levelHandler{levelNum: i, lm: lm})
 		}
